@@ -277,6 +277,7 @@ class Ctx:
                    distinct_nontrivial=self.nontrivial, rule=self.rule, events_validated=self.events,
                    checker_cmd="; ".join(self.checker_cmds[:12]), trusted_base=self.trusted, exhaustive=self.exhaustive,
                    spec_drift=self.drifts, known_findings_hit=self.known_hits, explanation=explanation, notes=self.notes)
+        cov["samples_readable"] = [pretty(x) for x in self.samples]
         cov.update(self.cover)
         ev = dict(property_id=self.pid, tier=self.tier, seed=self.seed, level=self.level, coverage=cov,
                   assumptions=self.assumptions, wall_s=round(wall, 2), violations=len(self.violations))
@@ -286,6 +287,38 @@ class Ctx:
             self.pid, self.tier, self.seed, self.states, self.transitions, self.traces, self.events, len(self.violations),
             len(self.drifts), wall))
         return 1 if self.violations else 0
+
+
+TEXT_KEYS = {"v", "str", "alpha", "allowChars", "excludeChars", "sepChar", "out", "chars"}
+TEXTLIST_KEYS = {"words", "kept", "titles", "keptTitles", "requireSets", "secrets", "atoms", "seps", "emb", "file", "lower"}
+
+
+def _txt(cps):
+    try:
+        return "".join(chr(c) if c < 0x110000 else "\\x%02x" % (c - 0x110000) for c in cps)
+    except Exception:
+        return None
+
+
+def pretty(o, depth=0):
+    """A readable rendering of a recorded event: code-point arrays shown as text."""
+    if depth > 6:
+        return "..."
+    if isinstance(o, dict):
+        out = {}
+        for k, v in o.items():
+            if k in TEXT_KEYS and isinstance(v, list) and all(isinstance(x, int) for x in v):
+                out[k] = _txt(v)[:200]
+            elif k in TEXTLIST_KEYS and isinstance(v, list) and all(isinstance(x, list) for x in v):
+                out[k] = [_txt(x) for x in v[:12]] + (["...(%d more)" % (len(v) - 12)] if len(v) > 12 else [])
+            elif k in ("ent", "ent2", "sp") and isinstance(v, dict) and v.get("k") == "fin":
+                out[k] = (-1 if v.get("neg") else 1) * v.get("m", 0) * 2.0 ** v.get("e", 0)
+            else:
+                out[k] = pretty(v, depth + 1)
+        return out
+    if isinstance(o, list):
+        return [pretty(x, depth + 1) for x in o[:12]] + (["...(%d more)" % (len(o) - 12)] if len(o) > 12 else [])
+    return o
 
 
 def load_known():
